@@ -104,7 +104,7 @@ template <typename T> static void reg_number_splitter(const char* sfx) {
             int sh = (int)a.v[1], c = (int)a.v[2];
             if (sh >= w) { o = join({0, a.v[0], (big)sh}); return true; }
             if (c > w - sh) c = w - sh;
-            if (c >= w) return false;                                    // not is_correct: cut(w) is undefined
+            if (c >= w) { o = join({a.v[0], a.v[0], (big)w}); return true; }   // sh == 0: the whole number, then eos
             u64 r = c ? (bits_of(a.v[0]) >> sh) & ((1ULL << c) - 1) : 0;
             o = join({(big)r, a.v[0], (big)(sh + c)}); return true; };
         f.gen = [gen_state](u64 s, bool t, const std::function<void(const Args&)>& k) { gen_state(s, t, true, k); };
